@@ -231,6 +231,22 @@ Theorem C11_include_path_eq_output_path (strop : str -> str) (es : bool) (outdir
 Proof. intros cfg t. repeat constructor; exact (proj1 (include_path_eq_output_path strop es _ outdir t)) || exact (proj2 (include_path_eq_output_path strop es _ outdir t)). Qed.
 Print Assumptions C11_include_path_eq_output_path.
 
+(* (11') Python does not include files: a referenced type is reached through its package (lang/py filter_imports) and module path
+   (filter_full_reference_name), whose namespace components are stropped with the identifier types found by the scan
+   (scan_py_reference_id_types: today "any"), whereas the directories are stropped with "path".  PARTIAL: the referenced package
+   chain equals the directory chain of the type file for every stropper `strop_of id_type` that agrees with id type "path" on the
+   namespace components (for the py configuration there are no per-type patterns today; the correspondence run checks
+   filter_imports / filter_full_reference_name / the generated import lines against the type file's location on names drawn
+   from every reserved list).  html/js: no statement (js has no templates; html is not in the harness's LANGS). *)
+Theorem C11_py_reference_path_partial :
+  forall (strop_of : str -> str -> str) (ns : key),
+    (forall ty x, In ty scan_py_reference_id_types -> In x ns -> strop_of ty x = strop_of ty_path x) ->
+    Forall (fun ty => map (strop_of ty) ns = map (strop_of ty_path) ns) scan_py_reference_id_types.
+Proof.
+  intros strop_of ns H. apply Forall_forall. intros ty Hty. apply map_ext_in. intros x Hx. apply H; assumption.
+Qed.
+Print Assumptions C11_py_reference_path_partial.
+
 (* (12) the type file lies in the output folder of its namespace's Namespace object (Namespace.output_folder), i.e. next to
    the namespace file -- with stropping enabled both are outdir / strop(ns_1) / ... / strop(ns_n). *)
 Theorem C11_type_file_in_namespace_folder (strop : str -> str) (ext stem : str) (outdir : path) :
